@@ -314,3 +314,18 @@ package html
 //@   props C19
 //@   loop 1 iter failure-is-kept: implies(!isnil(old(err)), !isnil(err))
 //@   ensures failure-is-kept: implies(!isnil(old(err)), !isnil(err))
+
+// C17: the owner lookup that the hide-mode filters of places rely on. The
+// owner of a node is the FIRST individual that contains it anywhere below
+// (HasNestedNode, asked about exactly this node for each individual in turn);
+// nil only when none does - a place that hangs deeper than an event, or below
+// an attribute that is not an event, still has its owner.
+//@ func individualForNode
+//@   props C17
+//@   ghost has bool = false
+//@   ghost nAsk int = 0
+//@   opaque HasNestedNode, Document.Individuals
+//@   oncall HasNestedNode check about-this-node-and-individual: data(arg0) == individual && arg1 == node
+//@   oncall HasNestedNode do has = result; nAsk = nAsk + 1
+//@   loop 1 iter asks-each-and-goes-on-only-after-no: nAsk == old(nAsk) + 1 && !has
+//@   ensures owner-contains-the-node: implies(result != nil, has)
